@@ -49,6 +49,45 @@ type armFacts struct {
 	cmpConsts []string // constants compared with == (special codes)
 	assigned  []string // constants assigned (special codes)
 	pos       token.Pos
+	codeOf    map[string]string // Transform: special value class (inf+ / inf- / nan) → code assigned under its test
+	classOf   map[string]string // Restore: code tested → special value class produced under that test
+}
+
+// specialClass: the class of special float value an expression tests for or produces.
+func (c *Ctx) specialClass(e ast.Node) string {
+	info := c.m.Info
+	class := ""
+	ast.Inspect(e, func(n ast.Node) bool {
+		call, ok := n.(*ast.CallExpr)
+		if !ok {
+			return true
+		}
+		switch c.m.calleeName(call) {
+		case "math.IsNaN", "math.NaN":
+			class = "nan"
+		case "math.IsInf", "math.Inf":
+			if len(call.Args) >= 1 {
+				if tv, has := info.Types[call.Args[len(call.Args)-1]]; has && tv.Value != nil {
+					if v, exact := constant.Int64Val(constant.ToInt(tv.Value)); exact {
+						switch {
+						case v > 0:
+							class = "inf+"
+						case v < 0:
+							class = "inf-"
+						default:
+							if c.m.calleeName(call) == "math.Inf" {
+								class = "inf+" // math.Inf(0) is +Inf
+							} else {
+								class = "inf±"
+							}
+						}
+					}
+				}
+			}
+		}
+		return true
+	})
+	return class
 }
 
 func bigOf(v constant.Value) *big.Int {
@@ -94,6 +133,67 @@ func (c *Ctx) collectArmInto(af *armFacts, st ast.Node, depth int, visited map[*
 			stack = append(stack, n)
 			if c.inDeadBranch(stack) {
 				return true
+			}
+			// the test this node sits under (innermost if-body or case body)
+			underClass, underCode := "", ""
+			for i := len(stack) - 2; i >= 0 && underClass == "" && underCode == ""; i-- {
+				var conds []ast.Expr
+				switch p := stack[i].(type) {
+				case *ast.IfStmt:
+					if stack[i+1] == ast.Node(p.Body) {
+						conds = []ast.Expr{p.Cond}
+					}
+				case *ast.CaseClause:
+					inBody := false
+					for _, st := range p.Body {
+						if stack[i+1] == ast.Node(st) {
+							inBody = true
+						}
+					}
+					if inBody {
+						conds = p.List
+						// tagged switch: case C tests tag == C
+						if i > 1 {
+							if sw, ok := stack[i-2].(*ast.SwitchStmt); ok && sw.Tag != nil {
+								for _, e := range p.List {
+									if s, ok := cst(e); ok {
+										underCode = s
+									}
+								}
+							}
+						}
+					}
+				}
+				for _, cond := range conds {
+					if cl := c.specialClass(cond); cl != "" {
+						underClass = cl
+					}
+					if be, ok := ast.Unparen(cond).(*ast.BinaryExpr); ok && be.Op == token.EQL {
+						if s, ok := cst(be.Y); ok {
+							underCode = s
+						} else if s, ok := cst(be.X); ok {
+							underCode = s
+						}
+					}
+				}
+			}
+			record := func(code string) {
+				if underClass != "" {
+					if af.codeOf == nil {
+						af.codeOf = map[string]string{}
+					}
+					af.codeOf[underClass] = code
+				}
+			}
+			if underCode != "" {
+				if call, ok := n.(*ast.CallExpr); ok {
+					if cl := c.specialClass(call); cl != "" && (c.m.calleeName(call) == "math.Inf" || c.m.calleeName(call) == "math.NaN") {
+						if af.classOf == nil {
+							af.classOf = map[string]string{}
+						}
+						af.classOf[underCode] = cl
+					}
+				}
 			}
 			switch x := n.(type) {
 			case *ast.CallExpr:
@@ -167,6 +267,7 @@ func (c *Ctx) collectArmInto(af *armFacts, st ast.Node, depth int, visited map[*
 				if depth > 0 && len(x.Results) == 1 {
 					if s, ok := cst(x.Results[0]); ok {
 						af.assigned = append(af.assigned, s)
+						record(s)
 					} else if be, ok := ast.Unparen(x.Results[0]).(*ast.BinaryExpr); ok && (be.Op == token.ADD || be.Op == token.SUB) {
 						if s, ok := cst(be.Y); ok {
 							af.addConsts = append(af.addConsts, s)
@@ -181,6 +282,7 @@ func (c *Ctx) collectArmInto(af *armFacts, st ast.Node, depth int, visited map[*
 							af.addConsts = append(af.addConsts, s)
 						case token.ASSIGN:
 							af.assigned = append(af.assigned, s)
+							record(s)
 						}
 					}
 				}
@@ -385,6 +487,12 @@ func ruleR15(c *Ctx) {
 				for a := range rset {
 					if !want[a] && a != ta.addConsts0() {
 						errs = append(errs, "Restore tests unexpected code "+a)
+					}
+				}
+				// which special value each code stands for must be the same in both directions
+				for class, code := range ta.codeOf {
+					if back, ok := ra.classOf[code]; ok && back != class {
+						errs = append(errs, fmt.Sprintf("Transform encodes %s as code %s but Restore decodes code %s as %s", class, code, code, back))
 					}
 				}
 				sort.Strings(errs)
